@@ -333,13 +333,16 @@ class TStr:
         def norm(v, default):
             if v is None:
                 return default
-            v = lift_int(v)
+            v = z3.simplify(lift_int(v))
+            if ENGINE is not None and ENGINE.implied(z3.And(v >= 0, v <= n)):
+                return v  # the common case: keeps slice terms small and mergeable
             v = z3.If(v < 0, v + n, v)
             return z3.If(v < 0, 0, z3.If(v > n, n, v))
 
         a = norm(idx.start, z3.IntVal(0))
         b = norm(idx.stop, n)
-        b = z3.If(b < a, a, b)
+        if not (ENGINE is not None and ENGINE.implied(a <= b)):
+            b = z3.If(b < a, a, b)
         return TStr([("sub", z3.simplify(lo + a), z3.simplify(lo + b))], self.n)
 
     # str methods the analysed code uses (content facts, see Facts)
@@ -360,6 +363,15 @@ class TStr:
         if not self.atoms:
             return "".startswith(pre)
         return ENGINE.facts.startswith(self, pre)
+
+    def __contains__(self, item):
+        if not isinstance(item, str):
+            raise NotEncodable("non-literal in symbolic text")
+        if item == "":
+            return True
+        if not self.atoms:
+            return False
+        return bool(ENGINE.facts.has(self, item))
 
     def strip(self, chars=None):
         return ENGINE.facts.strip(self, True, True)
@@ -426,6 +438,10 @@ class Facts:
                     self.eng.add(z3.Implies(ba, bb) if la.endswith(lb) else z3.Not(z3.And(ba, bb)))
                 if ka == "eq" and kb == "starts":
                     self.eng.add(z3.Implies(ba, bb) if la.startswith(lb) else z3.Not(z3.And(ba, bb)))
+                if ka == "eq" and kb == "has":
+                    self.eng.add(z3.Implies(ba, bb) if lb in la else z3.Not(z3.And(ba, bb)))
+                if ka in ("ends", "starts") and kb == "has" and lb in la:
+                    self.eng.add(z3.Implies(ba, bb))
         self.by_slice[t.key()][(kind, lit)] = b
         self.tab[k] = b
         return b
@@ -438,6 +454,11 @@ class Facts:
 
     def startswith(self, t, lit):
         return mkbool(self._fact(t, "starts", lit))
+
+    def has(self, t, lit):
+        if lit in self.eng.path_state.get("absent_literals", ()):
+            return False  # harness bound: this literal does not occur in the text at all
+        return mkbool(self._fact(t, "has", lit))
 
     def strip(self, t, left=True, right=True):
         """a slice with 0..len characters removed from the chosen ends."""
@@ -668,6 +689,15 @@ class Engine:
         self.unknowns += 1
         return "unknown", None
 
+    def implied(self, e):
+        """does the current path condition imply e? (unknown counts as no)"""
+        e = z3.simplify(e)
+        if z3.is_true(e):
+            return True
+        if z3.is_false(e):
+            return False
+        return self._check(z3.Not(e)) == z3.unsat
+
     def path_model(self):
         r = self._check()
         if r == z3.sat:
@@ -835,9 +865,13 @@ class Interp:
         if isinstance(f, types.FunctionType):
             if self.interpretable(f):
                 return self.call_closure(self.closure_of(f), args, kwargs)
-            if f.__module__ in ("__main__", "symex") or f.__module__ == "dataclasses" or f.__qualname__.endswith("__init__"):
+            m = f.__module__ or ""
+            if m in ("__main__", "dataclasses") or m.startswith("vf.") or m == "vf" or f.__qualname__.endswith("__init__"):
                 return f(*args, **kwargs)
-            raise NotEncodable(f"call to non-repo python function {f.__module__}.{f.__qualname__}")
+            if not any(deep_sym(a) for a in args) and not any(deep_sym(a) for a in kwargs.values()):
+                # library code on concrete arguments runs natively
+                return f(*args, **kwargs)
+            raise NotEncodable(f"call to non-repo python function {f.__module__}.{f.__qualname__} with symbolic arguments")
         if isinstance(f, type):
             return self.instantiate(f, args, kwargs)
         m = MODELS.get(f)
@@ -931,13 +965,24 @@ class Interp:
             raise TypeError(f"unexpected kwargs {kwargs}")
         if isinstance(node, ast.Lambda):
             return self.ev(node.body, env)
+        is_gen = getattr(c, "is_gen", None)
+        if is_gen is None:
+            is_gen = c.is_gen = any(isinstance(x, (ast.Yield, ast.YieldFrom)) for x in ast.walk(node))
+        if is_gen:
+            # generators are run eagerly (sound when the body has no side effects that
+            # interleave with the consumer; the evidence lists generator functions)
+            env.yields = []
         self.fn_stack.append(getattr(c, "qualname", None))
         try:
             self.exec_block(node.body, env)
         except _Return as r:
+            if is_gen:
+                return iter(env.yields)
             return r.v
         finally:
             self.fn_stack.pop()
+        if is_gen:
+            return iter(env.yields)
         return None
 
     # -- statements
@@ -1378,6 +1423,22 @@ class Interp:
         out = SymDict()
         self._comp(n.generators, env, lambda e: out.__setitem__(self.ev(n.key, e), self.ev(n.value, e)))
         return out.finish()
+
+    def _yield_env(self, env):
+        e = env
+        while e is not None and not hasattr(e, "yields"):
+            e = e.parent
+        if e is None:
+            raise NotEncodable("yield outside an interpreted generator")
+        return e
+
+    def e_Yield(self, n, env):
+        self._yield_env(env).yields.append(self.ev(n.value, env) if n.value else None)
+        return None
+
+    def e_YieldFrom(self, n, env):
+        self._yield_env(env).yields.extend(self.iterate(self.ev(n.value, env)))
+        return None
 
     def e_Starred(self, n, env):
         raise NotEncodable("starred")
